@@ -175,7 +175,12 @@ func Mluc(recs []MlucRec, place string, recSize int) ([]byte, []string) {
 		}
 	case "gapped":
 		for i := 0; i < n; i++ {
-			strs = append(strs, 0, 0)
+			// gaps of one and of two bytes in turn: strings start at odd and at even offsets (the
+			// format aligns tags, not the strings inside an mluc tag)
+			strs = append(strs, 0)
+			if i%2 == 1 {
+				strs = append(strs, 0)
+			}
 			offs[i] = head + len(strs)
 			lens[i] = len(enc[i])
 			strs = append(strs, enc[i]...)
